@@ -42,7 +42,7 @@ class Outcome:
                 self.classes.append(n)
 
     def fail(self, clause, klass, msg):
-        self.failures.append((clause, klass, str(msg)[:600]))
+        self.failures.append((clause, klass, str(msg)[:1500]))
 
     def exclude(self, reason):
         self.excluded = reason
